@@ -59,12 +59,52 @@ Proof.
   destruct (mem_text (snd x) encs); apply IH.
 Qed.
 
+(* ------------------------------------------------------------ asset.resolve_asset_spec, Configurator._make_spec,
+   the spec normalisation of StaticURLInfo.add *)
+Lemma split_once_none ch s : memN ch s = false -> split_once ch s = None.
+Proof.
+  induction s as [|x r IH]; [reflexivity|]. cbn [memN split_once]. rewrite N.eqb_sym.
+  destruct (x =? ch); [discriminate|]. cbn [orb]. intros H. rewrite (IH H). reflexivity.
+Qed.
+
+Lemma split_once_some ch s : memN ch s = true -> exists p d, split_once ch s = Some (p, d).
+Proof.
+  induction s as [|x r IH]; [discriminate|]. cbn [memN split_once]. rewrite N.eqb_sym.
+  destruct (x =? ch); [intros _; eexists; eexists; reflexivity|]. cbn [orb]. intros H.
+  destruct (IH H) as (p & d & ->). eexists; eexists; reflexivity.
+Qed.
+
+Theorem gen_resolve_asset_spec_is_model spec pname :
+  gen_resolve_asset_spec spec pname = resolve_asset_spec spec pname.
+Proof.
+  unfold gen_resolve_asset_spec, resolve_asset_spec, split1, colon, slash.
+  repeat match goal with
+         | |- context [if startswith ?a ?b then _ else _] => destruct (startswith a b)
+         end; try reflexivity.
+  destruct (memN 58 spec) eqn:E.
+  - destruct (split_once_some _ _ E) as (p & d & ->). reflexivity.
+  - rewrite (split_once_none _ _ E). destruct pname; reflexivity.
+Qed.
+
+Theorem gen_make_spec_is_model cfg_pkg path : gen_make_spec cfg_pkg path = make_spec path cfg_pkg.
+Proof.
+  unfold gen_make_spec, make_spec. rewrite !gen_resolve_asset_spec_is_model.
+  destruct (resolve_asset_spec path (Some cfg_pkg)) as [[p|] f]; cbn [fst snd]; rewrite <- ?app_assoc; reflexivity.
+Qed.
+
+Theorem gen_static_add_spec_is_model spec : gen_static_add_spec spec = static_add_spec spec.
+Proof.
+  unfold gen_static_add_spec, static_add_spec. rewrite <- !endswith1. unfold slash, colon.
+  repeat match goal with |- context [if endswith ?a ?b then _ else _] => destruct (endswith a b) end;
+    cbn [orb negb]; reflexivity.
+Qed.
+
 (* ------------------------------------------------------------ __init__ *)
 Theorem gen_init_is_model encmap caller root_dir package_name use_subpath index reload encs :
   gen_init encmap caller root_dir package_name use_subpath index reload encs =
   init_model encmap caller root_dir package_name use_subpath index reload encs.
 Proof.
-  unfold gen_init, init_model, init_root. rewrite ?gen_compile_content_encodings_is_model.
+  unfold gen_init, init_model, init_root. rewrite ?gen_compile_content_encodings_is_model, ?gen_resolve_asset_spec_is_model.
   destruct package_name;
     repeat match goal with
            | |- context [match ?x with None => _ | Some _ => _ end] => destruct x
